@@ -473,19 +473,19 @@ Proof.
 Qed.
 
 (* the text coap_print_wellknown_lkd hands to match() for an attribute value *)
-Lemma lf_unquote_view v :
+Lemma lf_unquote_view v term :
   exists quoted,
     (if len v <? 2 then Some false
-     else match lf_rd (v ++ [0]) 0 with None => None | Some c => Some (c =? 34) end) = Some quoted /\
-    let text := if quoted then {| lf_obj := v ++ [0]; lf_at := 1; lf_len := len v - 2 |}
-                else {| lf_obj := v ++ [0]; lf_at := 0; lf_len := len v |} in
+     else match lf_rd (v ++ term) 0 with None => None | Some c => Some (c =? 34) end) = Some quoted /\
+    let text := if quoted then {| lf_obj := v ++ term; lf_at := 1; lf_len := len v - 2 |}
+                else {| lf_obj := v ++ term; lf_at := 0; lf_len := len v |} in
     lf_inb text /\ lf_view text = lf_unquote v.
 Proof.
   assert (Hv := len_nonneg v).
-  assert (Hplain : lf_inb {| lf_obj := v ++ [0]; lf_at := 0; lf_len := len v |} /\
-                   lf_view {| lf_obj := v ++ [0]; lf_at := 0; lf_len := len v |} = v).
+  assert (Hplain : lf_inb {| lf_obj := v ++ term; lf_at := 0; lf_len := len v |} /\
+                   lf_view {| lf_obj := v ++ term; lf_at := 0; lf_len := len v |} = v).
   { split.
-    - unfold lf_inb. cbn [lf_at lf_len lf_obj]. rewrite len_app, lf_len1. lia.
+    - unfold lf_inb. cbn [lf_at lf_len lf_obj]. rewrite len_app. assert (X := len_nonneg term). lia.
     - unfold lf_view. cbn [lf_at lf_len lf_obj]. rewrite lf_drop_0. apply take_app_exact. }
   destruct (len v <? 2) eqn:E2.
   - exists false. split; [reflexivity|]. cbv zeta.
@@ -501,9 +501,10 @@ Proof.
     + destruct tl as [|y tl']; [change (len (@nil Z)) with 0 in E2; lia|].
       assert (Hl := len_nonneg tl'). rewrite !len_cons.
       split.
-      * unfold lf_inb. cbn [lf_at lf_len lf_obj]. rewrite len_app, lf_len1, !len_cons. lia.
+      * unfold lf_inb. cbn [lf_at lf_len lf_obj]. rewrite len_app, !len_cons.
+        assert (X2 := len_nonneg term). lia.
       * unfold lf_view. cbn [lf_at lf_len lf_obj].
-        change (drop 1 ((x :: y :: tl') ++ [0])) with ((y :: tl') ++ [0]).
+        change (drop 1 ((x :: y :: tl') ++ term)) with ((y :: tl') ++ term).
         rewrite lf_take_app by lia. rewrite len_cons.
         replace (Z.max 0 (1 + (1 + len tl') - 2 - (1 + len tl'))) with 0 by lia.
         rewrite lf_take_0, app_nil_r. rewrite removelast_firstn_len.
@@ -512,9 +513,9 @@ Proof.
 Qed.
 
 (* C20_filter_spec: the code's per-resource decision is the RFC relation *)
-Theorem lf_select_ok q f r :
+Theorem lf_select_ok term q f r :
   lf_filter_ok q f ->
-  lf_select true f r = LfVal (lf_filter_spec q r).
+  lf_select true term f r = LfVal (lf_filter_spec q r).
 Proof.
   intros (Hname & Hrest). unfold lf_select, lf_filter_spec. rewrite Hname.
   destruct (lf_before_eq q) as [|n0 ntl] eqn:En.
@@ -527,8 +528,8 @@ Proof.
       rewrite <- Huri.
       assert (lf_substring f = false) as Hs0.
       { rewrite Hsub. symmetry in Huri. apply lf_beq_eq in Huri. rewrite Huri. reflexivity. }
-      rewrite lf_match_ok; [|unfold lf_inb; cbn [lf_at lf_len lf_obj]; rewrite len_app, lf_len1;
-                             assert (X := len_nonneg (lf_path r)); lia|exact Hinb].
+      rewrite lf_match_ok; [|unfold lf_inb; cbn [lf_at lf_len lf_obj]; rewrite len_app;
+                             assert (X := len_nonneg (lf_path r)); assert (X2 := len_nonneg term); lia|exact Hinb].
       rewrite Hs0. unfold lf_view at 2. cbn [lf_at lf_len lf_obj]. rewrite lf_drop_0, take_app_exact.
       destruct (lf_strip_star (lf_strip_slash p0)) as [p pfx]. inversion Hstar. reflexivity.
     + rewrite <- Huri.
@@ -536,7 +537,7 @@ Proof.
       unfold lf_c_find_attr.
       destruct (lf_find_attr (lf_attrs r) (n0 :: ntl)) as [a|] eqn:Ef; [|reflexivity].
       destruct (lf_avalue a) as [v|] eqn:Ev; [|reflexivity].
-      destruct (lf_unquote_view v) as (quoted & Hq & Htext). cbn [andb]. rewrite Hq.
+      destruct (lf_unquote_view v term) as (quoted & Hq & Htext). cbn [andb]. rewrite Hq.
       cbv zeta in Htext. destruct Htext as (Htin & Htv).
       set (text := if quoted then _ else _) in *.
       assert (lf_len text <? 0 = false) as Hneg by (destruct Htin as (_ & ? & _); lia).
@@ -546,7 +547,7 @@ Proof.
     unfold lf_c_find_attr.
     destruct (lf_find_attr (lf_attrs r) (n0 :: ntl)) as [a|] eqn:Ef; [|reflexivity].
     destruct (lf_avalue a) as [v|] eqn:Ev; [|reflexivity].
-    destruct (lf_unquote_view v) as (quoted & Hq & Htext). cbn [andb]. rewrite Hq.
+    destruct (lf_unquote_view v term) as (quoted & Hq & Htext). cbn [andb]. rewrite Hq.
     cbv zeta in Htext. destruct Htext as (Htin & Htv).
     set (text := if quoted then _ else _) in *.
     assert (lf_len text <? 0 = false) as Hneg by (destruct Htin as (_ & ? & _); lia).
